@@ -165,7 +165,10 @@ type hbqCase struct {
 	Mx     int    `json:"mx"`
 	Hb     string `json:"hb"`
 	Script []vmsg `json:"script"`
-	Ops    string `json:"ops"` // 'r' = let recvLoop read one message, 'R' = the reader's Read
+	Ops    string `json:"ops"` // 'r' = let recvLoop read one message, 'R' = the reader's Read, 'T' = wait for the interval to elapse
+	// heartbeat interval; 0 = one hour (no timer fires). Cases with 'T' use a short one: everything before the
+	// 'T' has to happen within it.
+	IntervalMs int `json:"interval_ms"`
 }
 type hbqObs struct {
 	Kind int    `json:"kind"` // 0 none, 1 blocked, 2 got, 3 ErrClosed
@@ -183,7 +186,11 @@ func runHbqCase(c hbqCase) (res hbqRes) {
 	st.stepped = true
 	hb, _ := hex.DecodeString(c.Hb)
 	// recvLoop and hbLoop start here; the interval is long, so neither timer fires
-	h, err := heartbeatServer(st, &heartbeatConfig{Interval: time.Hour, Heartbeat: hb}, c.Mx)
+	interval := time.Hour
+	if c.IntervalMs > 0 {
+		interval = time.Duration(c.IntervalMs) * time.Millisecond
+	}
+	h, err := heartbeatServer(st, &heartbeatConfig{Interval: interval, Heartbeat: hb}, c.Mx)
 	if err != nil {
 		res.Note = err.Error()
 		return
@@ -227,6 +234,10 @@ func runHbqCase(c hbqCase) (res hbqRes) {
 			if entered >= granted+1 && goroutineState([]string{"dtls.(*hbConn).recvLoop("}, nil) == "blocked" {
 				return true
 			}
+			// blocked pushing into the full queue (not inside the stream's Read)
+			if entered == granted && goroutineState([]string{"dtls.(*hbConn).recvLoop("}, []string{"dtls.(*vstream).Read("}) == "blocked" {
+				return true
+			}
 			if isClosed() && goroutineState([]string{"dtls.(*hbConn).recvLoop("}, nil) == "" {
 				return true
 			}
@@ -243,8 +254,16 @@ func runHbqCase(c hbqCase) (res hbqRes) {
 	for _, op := range c.Ops {
 		var o hbqObs
 		switch op {
+		case 'T':
+			deadline := time.Now().Add(4*interval + 2*time.Second)
+			for !(isClosed() && goroutineState([]string{"dtls.(*hbConn).recvLoop("}, nil) == "") && time.Now().Before(deadline) {
+				time.Sleep(time.Millisecond)
+			}
 		case 'r':
-			if !isClosed() {
+			st.mu.Lock()
+			held := st.readEntered == granted
+			st.mu.Unlock()
+			if !isClosed() && !held {
 				st.permits <- struct{}{}
 				granted++
 			}
@@ -287,6 +306,10 @@ func runHbqCase(c hbqCase) (res hbqRes) {
 					break wait
 				}
 				time.Sleep(50 * time.Microsecond)
+			}
+			if !loopParked() {
+				res.Note = "recvLoop did not park after a Read"
+				return
 			}
 		}
 		res.Out = append(res.Out, o)
